@@ -105,7 +105,9 @@ class BadgerFishConverter(XMLSchemaConverter):
         else:
             key, value = next(iter(obj.items()))
             tag = self.unmap_qname(key, xmlns=self.get_xmlns_from_data(value))
-            if xsd_element.is_matching(tag):
+            if not isinstance(value, MutableMapping):
+                tag = xsd_element.name  # a child with the same name, not a wrapper
+            elif xsd_element.is_matching(tag):
                 obj = value
             elif not self.namespaces and local_name(tag) == xsd_element.local_name:
                 obj = value
